@@ -105,8 +105,10 @@ struct Ev { char k; Vec x, y; double v; };
 
 struct RunSummary { int performed = 0, n_acc = 0; bool cap_in_linesearch = false, excluded = false, stopped_by_tol = false; double fres = 0; };
 
-struct Scales { double F = 0, G = 0, X = 0; void point(const Vec &x, double f, const Vec &g) { F = std::max(F, std::fabs(f)); for (double v : x) X = std::max(X, std::fabs(v)); for (double v : g) G = std::max(G, std::fabs(v)); }
-    double round_tol(int d) const { return 256.0 * EPS * (F + (double)d * G * std::max(1.0, X)); } };
+// data-derived rounding scales over the accepted chain: |f|, |grad f|, |x| and |z| (z = the point handed to the projection: the projection of z
+// is exact only up to eps*|z|, so with a large step s an accepted point is off by about eps*s*|grad f| and f can move by |grad f| times that)
+struct Scales { double F = 0, G = 0, X = 0, Z = 0; void point(const Vec &x, double f, const Vec &g) { F = std::max(F, std::fabs(f)); for (double v : x) X = std::max(X, std::fabs(v)); for (double v : g) G = std::max(G, std::fabs(v)); }
+    double round_tol(int d) const { return 256.0 * EPS * (F + (double)d * G * std::max(1.0, X)) + 8.0 * EPS * (double)d * G * Z; } };
 
 } // namespace
 
@@ -204,11 +206,11 @@ void check_C19(Src &s, Ctx &ctx) {
             } else {   // last logged trial, no gradient call after it: the harness test decides what the state must hold
                 accept = clear_pass; last_ambiguous = !clear_pass && !clear_fail; last_rejected = !accept;
             }
-            if (accept) { base = c.x; fbase = fc; P.g(base, gtmp); gbase = gtmp; sc.point(base, fbase, gbase); n_acc++; last_acc = (long)k; step /= dec; step *= dec; outer = true; }
+            if (accept) { for (double v : c.z) sc.Z = std::max(sc.Z, std::fabs(v)); base = c.x; fbase = fc; P.g(base, gtmp); gbase = gtmp; sc.point(base, fbase, gbase); n_acc++; last_acc = (long)k; step /= dec; step *= dec; outer = true; }
             else step /= dec;
         }
         RunSummary rs; rs.performed = status.performed_iterations; rs.n_acc = n_acc;
-        rs.cap_in_linesearch = !cands.empty() && (int)cands.size() == cap && last_rejected && !last_ambiguous;
+        rs.cap_in_linesearch = !cands.empty() && (int)cands.size() == cap && last_rejected;   // the library did not accept the last trial (no gradient call) and it does not clearly pass: the cap ended a line search
         rs.stopped_by_tol = (int)cands.size() < cap;
         rs.fres = P.f(result);
         bool nt = rs.cap_in_linesearch && n_acc >= 1;
